@@ -110,6 +110,7 @@ def step(d, n_ops):
                 return {"r": [[val], val]}
             return {key: val}
 
+        kept = []
         for i in range(n_ops):
             x = inst(i)
             x_snap = copy.deepcopy(x)
@@ -122,8 +123,8 @@ def step(d, n_ops):
                 elif o == 2:
                     try:
                         v.validate(x)
-                    except ValidationError:
-                        pass
+                    except ValidationError as exc:
+                        kept.append(exc)        # the caller keeps the exception (a report list): its traceback must not pin any state
                 elif o == 3:
                     it = v.iter_errors(x)
                     for _ in range(ks[i]):
